@@ -73,7 +73,7 @@ def _cfg_c17(r):
 
 
 DESIGN_INV = ["C01_Delivery", "C01_Intact", "C06_Delivery", "C02_NoDeadStall", "C02_NoLoss", "C06_CaughtUp",
-              "FlightConsistent"]
+              "C06_NoOrphans", "FlightConsistent"]
 
 PROPS = {
     "C01": dict(focus=["C01", "EXC"], gen=_cfg_c01, nrand=(260, 2500), nsim=(60, 600), sim="sim-rel",
@@ -83,14 +83,15 @@ PROPS = {
                 bind="C01"),
     "C02": dict(focus=["C02", "EXC"], gen=_cfg_c02, nrand=(220, 2500), nsim=(60, 600), sim="sim-rel",
                 design=(["rel-small"], ["rel-small", "rel-mid", "rel-burst"]),
-                witnesses=["W_NoRetransmission", "W_NoFastRecovery", "W_NotAllDelivered"],
+                witnesses=["W_NoRetransmission", "W_NoReassembly", "W_NotAllDelivered"],
+                witnesses_thorough=[("W_NoFastRecovery", "rel-mid")],
                 deviations=[("PopNoReset", "rel-small"), ("NoT3OnRetx", "rel-small")],
                 liveness=True, bind="C02"),
     "C06": dict(focus=["C06", "EXC"], gen=_cfg_c06, nrand=(220, 2500), nsim=(60, 600), sim="sim-pr",
-                design=(["pr-tiny"], ["pr-small", "pr-big", "pr-mix"]),
+                design=(["pr-tiny", "pr-fwdloss"], ["pr-tiny", "pr-fwdloss", "pr-back", "pr-small", "pr-big", "pr-mix"]),
                 witnesses=["W_NoAbandon", "W_NoRetransmission", "W_NotAllDelivered"],
-                deviations=[("NoFwdResend", "pr-tiny"), ("FwdSeqBackward", "pr-tiny"), ("AbandonSentOnly", "pr-big"),
-                            ("PruneAllStreams", "pr-mix"), ("FlightLeakOnAbandon", "pr-big")],
+                deviations=[("NoPopAfterPrune", "pr-tiny"), ("NoFwdResend", "pr-fwdloss"), ("FwdSeqBackward", "pr-back"),
+                            ("AbandonSentOnly", "pr-big"), ("PruneAllStreams", "pr-small"), ("FlightLeakOnAbandon", "pr-big")],
                 bind="C06"),
     "C13": dict(focus=["C13", "EXC"], gen=_cfg_c13, nrand=(300, 3000), nsim=(0, 0), sim=None,
                 design=([], []), witnesses=[], deviations=[], bind="C13"),
@@ -296,11 +297,10 @@ def _lifecycle_stage(thorough):
                 if not cov.get(a)]
         if dead:
             raise T.MachineryError("vacuity: lifecycle actions never taken: %s" % dead)
-        w = T.tlc(sc, "DcLifecycle", _dcl_cfg(4, 2, 1, reuse=True, inv=DCL_WIT, forward=False), workers=8,
-                  args=["-continue"], timeout=1500)
-        miss = [x for x in DCL_WIT if x not in w.violated]
-        if miss:
-            raise T.MachineryError("vacuity: lifecycle witnesses not reached: %s" % miss)
+        for x in DCL_WIT:      # one run each: TLC stops at the first violation
+            w = T.tlc(sc, "DcLifecycle", _dcl_cfg(4, 2, 1, reuse=True, inv=[x], forward=False), workers=4, timeout=1500)
+            if x not in w.violated:
+                raise T.MachineryError("vacuity: lifecycle witness not reached: %s" % x)
         devs = {}
         for d, clause in (DCL_DEVS if thorough else DCL_DEVS[:2]):
             r = T.tlc(sc, "DcLifecycle", _dcl_cfg(4, 2, 1, reuse=False, dev=[d]), workers=8, timeout=1500)
@@ -319,6 +319,58 @@ def _lifecycle_stage(thorough):
             out["lifecycle_states"] += lv.distinct
             out["lifecycle_transitions"] += lv.generated
     return out
+
+
+# --------------------------------------------------------------------------- C02: association set-up model
+
+
+def _handshake_stage(prop, thorough, sd):
+    """SctpHandshake.tla: exhaustive check, witnesses, deviation, liveness; lock-step replay of
+    simulated behaviours (MaxInitRetrans = 8 as in the code) into real pairs."""
+    out = {}
+    traces = []
+    with T.Scratch() as sc:
+        size = (3, 3, 1, 3) if thorough else (2, 2, 1, 2)
+        res = T.tlc(sc, "SctpHandshake", M.hs_cfg(*size), workers=8, timeout=1500)
+        if res.violated or not res.complete:
+            raise T.MachineryError("SctpHandshake fails its own clauses: %s\n%s" % (res.violated, res.out[-1000:]))
+        out["handshake_states"], out["handshake_transitions"] = res.distinct, res.generated
+        for w in M.HS_WIT:
+            r = T.tlc(sc, "SctpHandshake", M.hs_cfg(2, 2, 1, 2, inv=[w], props=()), workers=4, timeout=600)
+            if w not in r.violated:
+                raise T.MachineryError("vacuity: handshake witness %s not reached" % w)
+        r = T.tlc(sc, "SctpHandshake", M.hs_cfg(2, 2, 1, 2, dev=["LateInitResets"]), workers=4, timeout=600)
+        if "ReceiveStateMonotone" not in r.violated:
+            raise T.MachineryError("sensitivity: LateInitResets not detected (%s)" % r.violated)
+        out["handshake_deviation_LateInitResets"] = "ReceiveStateMonotone violated as required"
+        lv = T.tlc(sc, "SctpHandshake", M.hs_cfg(2, 2, 1, 1, inv=[], props=("Terminates",), spec="FairSpec"),
+                   workers=4, timeout=1500)
+        if lv.violated or lv.error:
+            raise T.MachineryError("SctpHandshake fails Terminates: %s\n%s" % (lv.violated, lv.out[-800:]))
+        out["handshake_liveness_Terminates"] = bool(lv.complete)
+        n = 300 if thorough else 50
+        simres, behs = T.simulate(sc, "SctpHandshake", M.hs_cfg(8, 5, 2, 3, inv=[], props=()), num=n, depth=45, seed=sd,
+                                  timeout=600)
+        if not behs:
+            raise T.MachineryError("no simulated handshake behaviours\n" + simres.out[-800:])
+    steps = matched = 0
+    mism = []
+    for beh in behs:
+        ls = M.HandshakeLockStep()
+        try:
+            tr = ls.run(beh)
+        finally:
+            ls.close()
+        tr["focus"] = PROPS[prop]["focus"]
+        tr["meta"] = {"src": "handshake-lockstep", "acts": [st["act"] for _, st in beh[1:]]}
+        steps += tr["steps"]
+        matched += tr["matched"]
+        if tr["mismatch"] and len(mism) < 5:
+            mism.append(tr["mismatch"])
+        traces.append(tr)
+    out["handshake_lockstep_steps"], out["handshake_lockstep_agreeing"] = steps, matched
+    out["handshake_lockstep_first_mismatches"] = mism
+    return out, traces
 
 
 # --------------------------------------------------------------------------- main
@@ -354,6 +406,11 @@ def run(prop):
                     wit[w] = w in res.violated
                     if not wit[w]:
                         raise T.MachineryError("vacuity: witness %s not violated in %s\n%s" % (w, cname, res.out[-600:]))
+            for w, cname in (p.get("witnesses_thorough", []) if thorough else []):
+                res = M.run_tlc(sc, M.CONFIGS[cname], [w], timeout=900, workers=4)
+                wit[w] = w in res.violated
+                if not wit[w]:
+                    raise T.MachineryError("vacuity: witness %s not violated in %s" % (w, cname))
             devs = {}
             for dname, cname in (p["deviations"] if thorough else p["deviations"][:2]):
                 res = M.run_tlc(sc, M.CONFIGS[cname], DESIGN_INV, dev=[dname], timeout=1500)
@@ -403,7 +460,18 @@ def run(prop):
             # (its consequences for other properties are not that property's root cause)
             if prop not in rg.get("props", [prop]):
                 continue
-            tr = D.run_ops([tuple(o) for o in rg["ops"]], *rg["origin"], meta={"src": "regress", "name": rg["name"]})
+            if "lockstep" in rg:      # a TLC counter-example kept as a schedule of model actions
+                lsr = rg["lockstep"]
+                ls = M.LockStep(M.SIM_CONFIGS.get(lsr["config"]) or M.CONFIGS[lsr["config"]])
+                try:
+                    ls.compare = lambda state: None
+                    tr = ls.run([("init", {})] + [("x", {"act": a}) for a in lsr["acts"]],
+                                probe=not lsr.get("no_probe"))
+                finally:
+                    ls.close()
+                tr["meta"] = {"src": "regress", "name": rg["name"]}
+            else:
+                tr = D.run_ops([tuple(o) for o in rg["ops"]], *rg["origin"], meta={"src": "regress", "name": rg["name"]})
             tr["focus"] = p["focus"]
             traces.append(tr)
         nrand = p["nrand"][ti]
@@ -411,6 +479,13 @@ def run(prop):
         jobs = [(prop, sd, k, min(k + per, nrand)) for k in range(0, nrand, per)]
         for out in _pool(_random_batch, jobs, procs):
             traces.extend(out)
+
+        hs_extra = {}
+        if prop == "C02":
+            hs_extra, hs_traces = _handshake_stage(prop, thorough, sd)
+            traces.extend(hs_traces)
+            design_states += hs_extra["handshake_states"]
+            design_trans += hs_extra["handshake_transitions"]
 
         verdicts, tstates, ttrans = J.judge(traces, parallel=8)
 
@@ -449,6 +524,7 @@ def run(prop):
             "samples": [_sample(traces[0]), _sample(traces[-1])],
         }
         rep.coverage.update(extra)
+        rep.coverage.update(hs_extra)
         if not p["design"][ti] and prop != "C13":
             rep.coverage["explanation"] = ("design-level model for this property: see the property's own "
                                            "specification module; states/transitions are those of the TLC trace validation")
@@ -522,7 +598,16 @@ def replay(prop, path):
     rp = obj["replay"]
     p = PROPS[prop]
     meta = rp.get("meta") or {}
-    if meta.get("src") == "lockstep":
+    if meta.get("src") == "handshake-lockstep":
+        ls = M.HandshakeLockStep()
+        try:
+            beh = [("init", {})] + [("x", {"act": a}) for a in meta["acts"]]
+            ls.project = lambda: ({}, {})
+            ls.mismatch = "replay"      # no state comparison
+            tr = ls.run(beh)
+        finally:
+            ls.close()
+    elif meta.get("src") == "lockstep":
         config = M.SIM_CONFIGS.get(meta["config"]) or M.CONFIGS[meta["config"]]
         ls = M.LockStep(config, *meta.get("origin", [None, None]))
         try:
